@@ -508,6 +508,12 @@ class Runner:
         if i == m:
             if s == "-" or proj(m) == s:
                 return "ok", None
+            if getattr(leg, "all_classes", False):
+                # every class of the row names ONE of several independent deviations (e.g. one per offending range):
+                # the row is known only if ALL of them are open (a repaired class must not hide behind an open one)
+                if classes and all(k in self.open_classes for k in classes):
+                    return "known", self.open_classes[classes[0]]
+                return "unlisted", None
             for k in classes:
                 if k in self.open_classes:
                     return "known", self.open_classes[k]
